@@ -11,6 +11,7 @@ from vmc import core, bfs, enum
 from props import chanflow
 
 PID = "C20"
+SHARD_WALL_CAP = 150     # seconds per BFS shard; reported as a cap when hit
 META = {
     "level": "model_checking",
     "technique": "explicit-state BFS over operation histories on real Channel objects (prefix replay, canonical state merging)",
@@ -142,11 +143,17 @@ def run_item(item, acc):
             return
     if visit(list(prefix), st0):
         frontier.append(list(prefix))
+    import time as _t
+    t_end = _t.time() + SHARD_WALL_CAP
     while frontier:
         hist = frontier.popleft()
         if len(hist) >= depth:
             left += 1
             continue
+        if _t.time() > t_end:
+            acc.note("wall cap %ds hit for config %r first event %r" % (SHARD_WALL_CAP, cfg[:3], prefix))
+            acc.count("states_left_unexpanded_at_wall_cap", len(frontier) + 1)
+            break
         st = build(hist)
         for ev in enabled(st, hist):
             nxt = build(hist + [ev])
@@ -199,6 +206,9 @@ def main(tier):
     ck.merge(core.pmap(items, run_item))
     ck.exhaustive = False
     ck.caps.append("depth-bounded: frontier states left at the depth cap are counted in counters")
+    for n in ck.acc.notes:
+        if "wall cap" in n:
+            ck.cap_hit(n)
     return ck.finish()
 
 
